@@ -192,6 +192,7 @@ class Contract:
         self.locals = {}         # declared kinds for locals that cannot be inferred
         self.ghosts = {}         # ghost parameters, bound by name from the caller's scope
         self.exposes = {}        # callee locals visible in postconditions (skolem constants at call sites)
+        self.after_assign = {}   # (variable, occurrence) -> [('let', name, expr)|('check'|'hint', expr, text)]: ghost code after an assignment
         self.finally_ = []       # ('check'|'hint', expr, text) evaluated at every return before the postconditions
         self.inline = False      # tiny wrapper: executed inline at call sites instead of by contract
 
@@ -297,6 +298,24 @@ def _spec_stmt(st, c):
                 c.exposes[kw.arg] = parse_kind(ast.literal_eval(kw.value))
         else:
             return False
+        return True
+    if isinstance(st, ast.With) and isinstance(st.items[0].context_expr, ast.Call) and \
+            getattr(st.items[0].context_expr.func, 'id', None) == 'after_assign':
+        call = st.items[0].context_expr
+        key = (ast.literal_eval(call.args[0]), ast.literal_eval(call.args[1]) if len(call.args) > 1 else 1)
+        clauses = []
+        for sub in st.body:
+            if not (isinstance(sub, ast.Expr) and isinstance(sub.value, ast.Call)):
+                raise SyntaxError('unknown after_assign clause')
+            fn = sub.value.func.id
+            if fn == 'let':
+                for kw in sub.value.keywords:
+                    clauses.append(('let', kw.arg, kw.value))
+            elif fn in ('check', 'hint'):
+                clauses.append((fn, sub.value.args[0], _txt(sub.value.args[0])))
+            else:
+                raise SyntaxError('unknown after_assign clause %s' % fn)
+        c.after_assign[key] = clauses
         return True
     if isinstance(st, ast.With) and isinstance(st.items[0].context_expr, ast.Call) and \
             getattr(st.items[0].context_expr.func, 'id', None) == 'loop':
